@@ -236,6 +236,27 @@ def v6_words(rng):
     return ws
 
 
+def v6_words_arbitrary(rng):
+    """eight words with ARBITRARY 16-bit values (every hex length) over a random zero mask"""
+    mask = rng.randrange(256)
+    if rng.random() < 0.25:
+        mask &= 0x07 if rng.random() < 0.5 else 0x03          # zero run at the front: dotted-tail candidates
+    ws = []
+    for i in range(8):
+        if not (mask >> (7 - i)) & 1:
+            ws.append(0)
+        else:
+            hi = rng.choice([0xf, 0xff, 0xfff, 0xffff, 0xffff, 0xffff])
+            ws.append(rng.choice([rng.randint(1, hi), rng.randint(1, hi), hi, (hi + 1) >> 4 or 1]))
+    if mask & 0xf8 == 0 and rng.random() < 0.5:
+        ws[5] = 0xffff
+    return ws
+
+
+def v6_pack(ws):
+    return b"".join(w.to_bytes(2, "big") for w in ws)
+
+
 def v6_spellings(ws, rng=None, embed=True):
     """all textual forms of eight words: full, every '::' placement over a zero run,
     optionally with the last 32 bits as a dotted quad"""
@@ -365,6 +386,20 @@ def gen_texts(ctx):
                                "lp": int(ports[1] if ports and ports[1] is not None else ports[0]) if ports else 0,
                                "reject": not okw}
                     add(s, "v6_embedded_spec" if emb else "v6_spec", exp)
+    # --- canonical IPv6 texts of arbitrary words (c16_canonical_v6_full): what glibc and ipaddress print
+    for _ in range(150 if quick else 4000):
+        ws = v6_words_arbitrary(rng)
+        packed = v6_pack(ws)
+        t_libc = socket.inet_ntop(socket.AF_INET6, packed)
+        t_py = str(ipaddress.IPv6Address(packed))
+        for t in sorted({t_libc, t_py}):
+            exp = {"fam": 10, "words": ws, "width": 128, "fp": 0, "lp": 0, "canonical": t_libc, "python": t_py}
+            add(t, "v6_canon_embedded" if "." in t else "v6_canon", exp)
+            if rng.random() < 0.3:
+                wd, ports = rng.choice(["0", "64", "128"]), rng.choice([None, ("443", None), ("8000", "8080")])
+                e2 = dict(exp, width=int(wd), fp=int(ports[0]) if ports else 0,
+                          lp=int(ports[1] if ports and ports[1] else ports[0]) if ports else 0)
+                add(subnet_text(t, wd, ports, "both" if ports else "none"), "v6_canon_embedded_spec" if "." in t else "v6_canon_spec", e2)
     # --- names
     for name in list(NAMES) + ["unknown.test", "EXAMPLE.COM", "a..b", "x" * 63, "x" * 64, "-", "_", "*.x", "*."]:
         for wd in (None, "24", "64", "129", "33"):
@@ -393,6 +428,23 @@ def gen_texts(ctx):
                         s += u + (":" + pw if pw is not None else "") + "@"
                     s += h + (":" + p if p is not None else "")
                     add(s, "hostport_spec", {"user": u, "pw": pw, "host": h, "port": p})
+    # --- host:port through ipaddress/urlparse (c16_hostport_port, c16_hostport_v6_port)
+    name_alph = "abcxyzABCXYZ0123456789_.-"
+    for _ in range(120 if quick else 3000):
+        k = rng.random()
+        if k < 0.5:
+            h = "".join(rng.choice(name_alph) for _ in range(rng.choice([1, 2, 3, 5, 8, 13, 30])))
+        elif k < 0.7:
+            h = ".".join(str(rng.choice([0, 1, 9, 10, 99, 100, 199, 255, 256, rng.randint(0, 255)])) for _ in range(rng.choice([4, 4, 4, 3, 5])))
+        else:
+            ws = v6_words_arbitrary(rng)
+            forms = v6_spellings(ws) + ([socket.inet_ntop(socket.AF_INET6, v6_pack(ws))] * 3)
+            h = rng.choice(forms)
+            if rng.random() < 0.85:
+                h = "[" + h + "]"
+        pt = rng.choice([None, "0", "22", "2222", "65535", "65536", "00022", str(rng.randint(0, 65535))])
+        u = rng.choice([None, None, "user"])
+        add((u + "@" if u else "") + h + (":" + pt if pt is not None else ""), "hostport_spec", {"user": u, "pw": None, "host": h, "port": pt})
     # --- very long digit runs (int() limit)
     for s in ["1.2.3.4/" + "0" * 4298 + "24", "1.2.3.4/" + "0" * 4299 + "24", "1.2.3.4:" + "9" * 4300, "1.2.3.4:" + "9" * 4301,
               "1.2.3.4:1-" + "9" * 4301, "1.2.3.4/33:" + "9" * 4301, "9" * 4301, "::1/" + "1" * 4301, "[::1]:" + "1" * 4301,
@@ -480,6 +532,17 @@ def check_subnet_oracle(ctx, s, kind, exp, res, exc):
         return
     ents = res[3:].split(";")
     fam, a, wd, fp, lp = ents[0].split(",")
+    if "canonical" in exp:
+        got = bytes.fromhex(a).decode("latin-1")
+        try:
+            back = (socket.inet_pton(socket.AF_INET6, exp["canonical"]), ipaddress.IPv6Address(exp["python"]).packed,
+                    str(ipaddress.ip_address(got)))
+        except (OSError, ValueError) as e:
+            back = (repr(e),)
+        packed = v6_pack(exp["words"])
+        if got != exp["canonical"] or back != (packed, packed, exp["python"]):
+            ctx.violation("canonical IPv6 text is not a fixed point / does not read back as the address it denotes",
+                          {"fn": "parse_subnetport", "text": s, "got": res[:200], "canonical_address": exp["canonical"]})
     got_ip = ipaddress.ip_address(bytes.fromhex(a).decode("latin-1"))
     if (len(ents) != 1 or int(fam) != exp["fam"] or got_ip != want_ip or int(wd, 16) != exp["width"]
             or int(fp, 16) != exp["fp"] or int(lp, 16) != exp["lp"]):
@@ -493,7 +556,7 @@ def check_hostport_oracle(ctx, s, exp, res):
     u, pw, h, p = exp["user"], exp["pw"], exp["host"], exp["port"]
     if u is not None and ":" in u:
         return
-    if "@" in h or not re.fullmatch(r"[A-Za-z0-9.\-]+|\[?[0-9A-Fa-f:]+(\.[0-9.]+)?\]?", h):
+    if "@" in h or not re.fullmatch(r"[A-Za-z0-9_.\-]+|\[?[0-9A-Fa-f:]+(\.[0-9.]+)?\]?", h):
         return
     bare = h.strip("[]")
     is6 = ":" in bare
@@ -757,7 +820,7 @@ def correspondence(ctx):
     lines, cases = [], []
     rng = ctx.rng
     for s, kind, exp in uniq:
-        if kind in ("v4_plain", "v6_plain", "v6_embedded") or (kind in ("mutant", "garbage") and rng.random() < 0.3):
+        if kind in ("v4_plain", "v6_plain", "v6_embedded", "v6_canon", "v6_canon_embedded") or (kind in ("mutant", "garbage") and rng.random() < 0.3):
             try:
                 s.encode("ascii")
             except UnicodeEncodeError:
@@ -838,6 +901,8 @@ def replay(ctx, rp):
     if fn == "parse_subnetport":
         g, res, exc = impl_sub(w, s)
         print("parse_subnetport(%r) -> %s" % (s, res[:200]))
+        if "canonical_address" in r:
+            return not res.startswith("OK 10,%s," % hx(r["canonical_address"]))
         if "expected_address" in r or "expected" in r:
             return not res.startswith("OK")
         if "exception" in r:
